@@ -470,3 +470,17 @@ Proof.
   cbn [app]. rewrite !intercalate_cons. rewrite map_app, concat_app. cbn [map concat].
   rewrite <- !app_assoc. reflexivity.
 Qed.
+
+Theorem more_filters_no_panic :
+  (forall by_value cs rev v, safe (f_dictsort by_value cs rev v)) /\
+  (forall v, safe (f_items v)) /\
+  (forall key d v, safe (f_map_attr key d v)) /\
+  (forall inv v, safe (f_select inv v)).
+Proof.
+  repeat split; intros.
+  - destruct v; exact I.
+  - destruct v; exact I.
+  - unfold f_map_attr. apply safe_bind; [apply safe_iter|]. intros items.
+    apply safe_bind; [apply map_attr_go_safe|intros; exact I].
+  - unfold f_select. apply safe_bind; [apply safe_iter|intros; exact I].
+Qed.
